@@ -167,6 +167,10 @@ pub struct KeyPool<V: Variant> {
 pub fn message(rng: &mut Prng) -> Vec<u8> {
     // lengths include 0, 1, the SHAKE-256 rate boundary once the 40-byte salt is
     // prepended (136 - 40 = 96), and larger
+    // rarely a very long message (1 MiB): thousands of SHAKE blocks before the first coefficient
+    if rng.chance(1, 96) {
+        return rng.bytes(1 << 20);
+    }
     let len = match rng.below(12) {
         0 => 0,
         1 => 1,
